@@ -1,6 +1,9 @@
 package checks
 
 import (
+	"sync/atomic"
+	_ "time/tzdata"
+
 	"fmt"
 	"reflect"
 	"time"
@@ -24,7 +27,17 @@ type c02Case struct {
 	Nil    bool   `json:"nil_param"`
 }
 
-var c02Locs = []*time.Location{time.UTC, time.FixedZone("+14", 14*3600), time.FixedZone("-12", -12*3600), time.FixedZone("+0545", 5*3600+45*60)}
+var c02Locs = func() []*time.Location {
+	l := []*time.Location{time.UTC, time.FixedZone("+14", 14*3600), time.FixedZone("-12", -12*3600), time.FixedZone("+0545", 5*3600+45*60)}
+	// real zones (embedded time/tzdata): daylight-saving transitions with repeated and skipped wall-clock hours,
+	// half-hour and 45-minute offsets, a 30-minute DST shift, a zone that skipped a calendar day
+	for _, n := range []string{"America/New_York", "Europe/Berlin", "Australia/Lord_Howe", "Asia/Kathmandu", "Pacific/Apia", "America/St_Johns", "Africa/Casablanca"} {
+		if z, err := time.LoadLocation(n); err == nil {
+			l = append(l, z)
+		}
+	}
+	return l
+}()
 
 func (c c02Case) instant() (time.Time, bool) {
 	t := time.Unix(c.Unix, c.Nsec)
@@ -245,6 +258,36 @@ func c02(r *ev.Run) {
 		}
 		r.Eval(hn)
 		r.Set("history_calls", hn)
+	}
+	// real time zones: every half hour (and the second before) of three years in each zone, i.e. across every
+	// daylight-saving transition, repeated and skipped wall-clock hour: the code depends on the instant only
+	{
+		key := keys[0]
+		sec := spellings(key)[0]
+		var zn atomic.Int64
+		ev.Par(len(c02Locs), func(li int) {
+			var local int64
+			for t := int64(1640995200); t < 1640995200+3*366*86400; t += 1800 { // from 2022-01-01 UTC
+				for _, dt := range []int64{0, -1} {
+					for pi, per := range []uint64{30, 3600} {
+						if pi == 1 && dt != 0 {
+							continue
+						}
+						c := c02Case{sec, t + dt, 0, li, false, per, 6, 0, false}
+						obs, bad := totpGen(c, key)
+						local++
+						if bad != "" {
+							r.Fail("totp-generate", fmt.Sprintf("zone %s period=%d: %s", c02Locs[li], per, bad), c, bad, obs)
+							break
+						}
+					}
+				}
+			}
+			zn.Add(local)
+			r.Eval(local)
+		})
+		r.Set("time_zone_grid_calls", zn.Load())
+		r.Set("time_zones", fmt.Sprint(c02Locs))
 	}
 	// the default period: generation with period 0 equals generation with period 30 (follows
 	// from the reference; counted separately as a metamorphic pair)
